@@ -44,6 +44,12 @@ pub enum Ev {
         #[serde(default)]
         b: bool,
     },
+    /// One notification that lists the folder both as removed and as added: how a client
+    /// makes the server re-read the folder's configuration. The folder is present afterwards.
+    FolderReadd {
+        #[serde(default)]
+        b: bool,
+    },
     /// A module that is not open vanishes from disk behind the server's back (rm, git
     /// checkout); the server can only notice at its next refresh after a notification.
     DiskDelete { path: String },
@@ -779,6 +785,16 @@ impl<'w> Exec<'w> {
                     sent = false;
                 }
             }
+            Ev::FolderReadd { b } => {
+                let (uri, present) = if *b { (self.world.folder_b_uri(), self.client.folder_b_present) } else { (self.world.folder_uri(), self.client.folder_present) };
+                if !present || (*b && !self.has_folder_b_files()) {
+                    sent = false;
+                } else {
+                    let f = json!({"uri": uri, "name": "ws"});
+                    self.stats.probe("folder_removed_and_added_in_one_notification");
+                    self.peer.notify("workspace/didChangeWorkspaceFolders", json!({"event": {"added": [f.clone()], "removed": [f]}}));
+                }
+            }
             Ev::DiskDelete { path } => {
                 sent = false;
                 let is_main = path == "main.oal" || path == "fb/main.oal";
@@ -852,7 +868,7 @@ impl<'w> Exec<'w> {
                 }
             }
         }
-        if sent && matches!(ev, Ev::Open { .. } | Ev::Change { .. } | Ev::Close { .. } | Ev::Folder { .. }) {
+        if sent && matches!(ev, Ev::Open { .. } | Ev::Change { .. } | Ev::Close { .. } | Ev::Folder { .. } | Ev::FolderReadd { .. }) {
             self.external_pending = false;
         }
         if sent {
@@ -961,6 +977,7 @@ pub fn ev_name(ev: &Ev) -> &'static str {
         },
         Ev::RenameLoop { .. } => "R",
         Ev::Folder { .. } => "F",
+        Ev::FolderReadd { .. } => "Fr",
         Ev::DiskDelete { .. } => "D-",
         Ev::DiskRestore { .. } => "D+",
         Ev::Checkpoint => "K",
